@@ -83,7 +83,49 @@ DESC4 = {
     "C09:A": ("_by_complex_first sorts by numerator degree minus denominator degree (inverse dimensions after Number)", "lux (dimensionless factors and a denominator) no longer reaches cd/m**2"),
     "C09:B": ("us.py: the litre value of the hogshead declared on Barrel (silently overwriting the barrel-litre ratio)", "barrel <-> L and shortest paths through that edge"),
 }
+DESC5 = {
+    "C01:A": ("Dimension.root ported to integer % with abs(degree), the magnitude reused for the quotient", "root of negative degree of a compound unit not interned yet"),
+    "C01:B": ("Dimension.define re-keys only the named dimensions (under the interning lock)", "a fundamental dimension defined at run time after units exist"),
+    "C02:A": ("Unit._build_key sorts factor items by the NFKD form of the symbol (can tie)", "two base units whose symbols are NFKD-equivalent: a*b and b*a are two objects"),
+    "C02:B": ("Prefix.__new__ normalises to IdentityPrefix when isclose(base**exponent, 1)", "same-base prefix powers beyond the float range raise OverflowError"),
+    "C03:A": ("error message of the dimension gate uses dimension.name.title()", "+ - in_unit between different dimensions, one of them unnamed: AttributeError"),
+    "C03:B": ("Quantity.__abs__ split into int / math.fabs branches", "abs of a Decimal quantity is a float"),
+    "C04:A": ("_match_factors exponent rule rewritten (wrong for the Number dimension)", "dimensionless named unit in a numerator going through the plan builder"),
+    "C04:B": ("_splat ported to itertools.groupby without sorting", "three or more factors with two non-adjacent factors of one dimension on both sides"),
+    "C05:A": ("convert rounds Decimal results to 15 decimal places", "Decimal magnitude whose converted value is tiny"),
+    "C05:B": ("_reduce_dimension tries smaller roots but returns the outer gcd", "pure power n>=2 of named derived-dimension units whose dimension gcd exceeds n"),
+    "C06:A": ("Quantity.__sub__ written as self + (-other)", "right operand in an offset scale, left operand in another unit"),
+    "C06:B": ("planner ported to a Step NamedTuple, the reflected match loses its swap", "compound unit with an unexpandable US volume unit"),
+    "C07:A": ("ConversionNotFound gets (start, end) arguments; the raise in _reduce_dimension keeps the old call", "impossible conversion pairing units of different dimensions: TypeError"),
+    "C07:B": ("new reciprocal-hop path search ends in min() of a possibly empty list", "impossible conversion between units of mutually inverse dimensions: ValueError"),
+    "C08:A": ("_replace_factors stores the sorted alternatives back into _ratios[unit]", "a compound query reorders a unit's declared neighbours; a later conversion takes another route"),
+    "C08:B": ("translate refuses a second zero point using `in` on a defaultdict that queries auto-vivify", "any earlier query that expanded the unit makes a later translate raise"),
+    "C09:A": ("Prefix.root raises a new FractionalPrefixError that _reduce_dimension does not catch", "gray / sievert no longer convert to m**2/s**2"),
+    "C09:B": ("si.py: sievert defined as its own unit of RadioactiveDose (L2 T-3) and equated to gray", "sievert cannot reach the coherent SI unit of its dimension"),
+    "C10:A": ("Decimal branch of _add.._pow goes through Fraction.limit_denominator()", "Decimal magnitudes under nano-or-smaller / Giga-or-larger prefixes"),
+    "C10:B": ("convert clamps values below zero after an offset hop", "temperatures below absolute zero along a path with a degC->K or degF->R hop"),
+    "C11:A": ("Quantity.unprefixed divides by 10**-exponent whatever the base", "base-2 prefixes with negative exponents (Bit/Byte, Pico*Byte)"),
+    "C11:B": ("both prefixes settled in one step at the end of the plan", "prefixed source on a path with an offset (kK -> degC)"),
+    "C12:A": ("Quantity.__eq__ uses math.isclose after conversion, __lt__ stays exact", "quantities less than 1e-9 relative apart in different units"),
+    "C12:B": ("Measurement.__eq__ overlap test as chained bound-within-me comparisons", "left interval strictly nested in the right one: asymmetric =="),
+    "C13:A": ("int and float magnitude callbacks merged through float()", "integer magnitudes beyond 2**53"),
+    "C13:B": ("term callback: `exponent or 1`", "explicit zeroth power spellings (m^0)"),
+    "C14:A": ("Quantity / Quantity of like units returns a plain number after converting", "Measurement / Measurement in different units of one dimension"),
+    "C14:B": ("shared quadrature helper sums with built-in sum()", "* or / with exactly one Decimal contribution: TypeError"),
+    "C15:A": ("unit names case-folded in the registry, pickle/JSON paths not", "base units whose name has an uppercase letter"),
+    "C15:B": ("MeasuredJSONEncoder defaults allow_nan to False", "infinite float magnitudes through the installed codecs"),
+    "C17:A": ("Unit.parse falls back to parsing a quantity and taking logs of the magnitude", "texts with a zero, negative or overflowing leading number: ValueError / OverflowError"),
+    "C17:B": ("lexer errors name the character with unicodedata.name() (no default)", "unnamed characters (controls, private use): ValueError"),
+    "C18:A": ("Level.__init__ snaps near-integer float magnitudes (isclose, rel 1e-9)", "levels within 1e-9 of a whole number: not strictly increasing, quantify off"),
+    "C18:B": ("ROOT_POWER_DIMENSIONS comprehension with range(1, 3)", "references of volume charge density get k = 1"),
+    "C19:A": ("NFC normalisation in Unit.alias after the uniqueness checks", "a non-NFC name/symbol whose NFC form is taken rebinds it"),
+    "C19:B": ("resolve_symbol tries prefix-name + unit-name before the exact name", "'kilogram' resolves to Kilo*Gram"),
+    "C20:A": ("lock-free scan of Prefix._known for float exponents in Prefix.__new__", "registration by another thread during the scan: RuntimeError"),
+    "C20:B": ("Unit.__init__ rebuilds self.factors item by item", "second thread re-running __init__ while the first multiplies the unit"),
+}
 ROUND, SRC, SUF = 3, "/tmp/seed3files", ""
+if os.environ.get("SEEDROUND") == "5":
+    DESC, ROUND, SRC, SUF = DESC5, 5, "/tmp/seed5files", "5"
 if os.environ.get("SEEDROUND") == "4":
     DESC, ROUND, SRC, SUF = DESC4, 4, "/tmp/seed4files", "4"
 
